@@ -31,7 +31,7 @@ TRACE_MODULE, TRACE_CFG = "MxIOSpecTrace", "MxIOSpecTrace.cfg"
 
 TIERS = {
     "quick": dict(mc=["MC_MxIOSpec_quick.cfg", "MC_MxIOSpec_quick1.cfg"], mc_workers=6,
-                  random=128, nops=24, mbt=800, mbt_short=3),
+                  random=112, nops=24, mbt=700, mbt_short=3),
     "thorough": dict(mc=["MC_MxIOSpec_thorough.cfg", "MC_MxIOSpec_thorough1.cfg"], mc_workers=8,
                      random=4000, nops=40, mbt=40000, mbt_short=3),
 }
